@@ -140,6 +140,11 @@ def cells_of(e):
   return out
 
 
+def has_summary_tables(e):
+  col = e.tables['_grist_Tables'].get_column('summarySourceTable')
+  return any(col.raw_get(r) for r in e.tables['_grist_Tables'].row_ids)
+
+
 def want_without(kind, v, removed):
   if kind == 'KRef':
     return 0 if (type(v) is int and v in removed) else v
@@ -166,7 +171,9 @@ class Oracle(object):
     if self.internal:
       tok['stale'] = {(tid, cid) for tid, cid, c in k4.ref_columns(e, data_only=False) if k4.index_exact(c)}
     sr = single_removal(bundle)
-    if sr and sr[0] in e.tables and not sr[0].startswith('_grist_'):
+    # the exact comparison is for documents without summary tables: their upkeep (regrouping, auto-removal of
+    # empty groups) legitimately rewrites other rows; oracle (i) below still covers those documents
+    if sr and sr[0] in e.tables and not sr[0].startswith('_grist_') and not has_summary_tables(e):
       tok['single'] = sr
       tok['cells'] = cells_of(e)
       if self.collect_worlds:
@@ -258,7 +265,7 @@ class Oracle(object):
 
 
 STREAMS = {
-  'main': dict(weights=None, undo_prob=0.12),
+  'main': dict(weights={'summary': 1}, undo_prob=0.12),     # summary tables: auto-removal of empty groups
   'replace': dict(weights={'replacedata': 9, 'rmrec': 12, 'refupd': 8}, undo_prob=0.0),
 }
 KNOWN_KINDS = ('replace_table_data_leaves_references', 'stale_index_after_replace_table_data')
